@@ -208,6 +208,16 @@ where
         Err(Caught::Budget(w)) => return o.fail(format!("loops beyond its iteration cap: more than {call_budget} {w} with n_max = {n_max}")),
         Err(Caught::Panic(m)) => return o.fail(format!("panicked: {m}")),
     };
+    // the cap counts iterations: Newton evaluates F and the Jacobian once per iteration; the secant method evaluates F
+    // once at the start, 2 S times for the central-difference Jacobian, and once per iteration from the third on
+    let exact_cap = if method == 0 { 2 * n_max } else { 1 + 2 * S + n_max.saturating_sub(2) };
+    if calls.get() > exact_cap {
+        return o.fail(format!(
+            "{} with n_max = {n_max} made {} evaluations of the user functions; the iteration cap allows {exact_cap}",
+            if method == 0 { "newton" } else { "secant" },
+            calls.get()
+        ));
+    }
     o.set("result", format!("{:?}", res.as_ref().map(|v| v.as_slice().to_vec())));
     let rnorm = rv.iter().map(|x| x * x).sum::<f64>().sqrt();
     let bound = 2.0 * tol + 256.0 * EPS * kappa * (1.0 + rnorm);
@@ -834,7 +844,7 @@ pub fn run(opts: &Opts) -> i32 {
         ("rotation-shaped-jacobian", 0.05),
         ("complex-system", 0.03),
     ];
-    spec.rule = "generated: (a) systems F(x)=A(x-r)+eta*N(x-r) of dimension 1-4, A strictly diagonally dominant (|diag| in [1,3], |offdiag| <= 0.25) or diag(|a_kk|) times a product of plane rotations by arbitrary angles (well conditioned, far from symmetric), times 10^[-1,1]; one case in seven a complex-valued system of dimension 1-2 (complex entries, roots and starts, same holomorphic non-linearity); N_i(d)=sin(d_{i+1})d_i+d_{i+2}^2, eta capped so that beta*gamma*|delta|<=0.1, roots in [-3,3]^S, at the origin, or far (|r_i|<=100), starts r+delta (|delta_i|<=0.3), exactly r, or the origin (affine), tol 10^[-10,-3], FD width 10^[-4,-1], n_max=100 or exhaustion caps 0..2, singular class with duplicate integer rows; Newton and secant. (b) polynomials of degree 1-8 expanded from separated roots (grid construction, separation >= 0.3, |z|<=3), Newton starts within 0.8 d/(2n-1) of a chosen root in real and complex arithmetic, Muller triples within 0.1 d (must converge) or 1.5 (may fail), incl. vertical triples. all coefficients optionally multiplied by 10^[-8,4] (roots unchanged). (c) Steffensen on six contractions r and their under-relaxations k x+(1-k) r(x), k in [0,0.97] (same fixed point, slope up to ~0.98), with tolerances 10^[-14,-3]. Oracle: Ok within 2 tol + rounding floor of the root (nearest root for Muller; |g(x)-x| <= 10 tol and distance to the fixed point <= 3 tol + 64 eps|x|/(1-slope)^2 for Steffensen; relaxed maps get tol >= 1e3 eps|x|/(1-slope)^2), Err on singular/exhausted input (or an Ok that meets the accuracy bound), never a panic/NaN, call counts bounded by the iteration cap. Non-trivial = non-affine system of dimension >= 2, special start, far root, tol <= 1e-8, polynomial degree >= 2, every Steffensen case. Distinct = distinct case JSON.".into();
+    spec.rule = "generated: (a) systems F(x)=A(x-r)+eta*N(x-r) of dimension 1-4, A strictly diagonally dominant (|diag| in [1,3], |offdiag| <= 0.25) or diag(|a_kk|) times a product of plane rotations by arbitrary angles (well conditioned, far from symmetric), times 10^[-1,1]; one case in seven a complex-valued system of dimension 1-2 (complex entries, roots and starts, same holomorphic non-linearity); N_i(d)=sin(d_{i+1})d_i+d_{i+2}^2, eta capped so that beta*gamma*|delta|<=0.1, roots in [-3,3]^S, at the origin, or far (|r_i|<=100), starts r+delta (|delta_i|<=0.3), exactly r, or the origin (affine), tol 10^[-10,-3], FD width 10^[-4,-1], n_max=100 or exhaustion caps 0..2, singular class with duplicate integer rows; Newton and secant. (b) polynomials of degree 1-8 expanded from separated roots (grid construction, separation >= 0.3, |z|<=3), Newton starts within 0.8 d/(2n-1) of a chosen root in real and complex arithmetic, Muller triples within 0.1 d (must converge) or 1.5 (may fail), incl. vertical triples. all coefficients optionally multiplied by 10^[-8,4] (roots unchanged). (c) Steffensen on six contractions r and their under-relaxations k x+(1-k) r(x), k in [0,0.97] (same fixed point, slope up to ~0.98), with tolerances 10^[-14,-3]. Oracle: Ok within 2 tol + rounding floor of the root (nearest root for Muller; |g(x)-x| <= 10 tol and distance to the fixed point <= 3 tol + 64 eps|x|/(1-slope)^2 for Steffensen; relaxed maps get tol >= 1e3 eps|x|/(1-slope)^2), Err on singular/exhausted input (or an Ok that meets the accuracy bound), never a panic/NaN, call counts bounded exactly by the iteration cap (Newton: at most n_max evaluations each of F and J; secant: 1 + 2S + max(0, n_max-2) of F). Non-trivial = non-affine system of dimension >= 2, special start, far root, tol <= 1e-8, polynomial degree >= 2, every Steffensen case. Distinct = distinct case JSON.".into();
     spec.max_shrink_iters = 3000;
     run_spec(spec, opts)
 }
